@@ -62,7 +62,13 @@ def build(c):
         env = TimeLimit(Pendulum(), 20)
         pol = learnx.make_policy("sac", env, 7, width_size=8, depth=1)
         return env, pol, learnx.make_algo("SAC", c["num_envs"], 1, buffer_size=256, learning_starts=8, batch_size=16)
-    if c["env"] == "tab":
+    if c["env"] == "tab-dict":
+        # Dict observation space with two string keys (declared in non-alphabetical order)
+        from lerax.wrapper import TimeLimit
+        from mc.mdp import TabEnv
+
+        env = TimeLimit(TabEnv(np.asarray(learnx.CHAIN_T), [False, False, True], [True, True, False], act_kind=learnx.ALGO_ACT[name], obs_kind="dict"), 3)
+    elif c["env"] == "tab":
         env = learnx.tiny_env(learnx.ALGO_ACT[name], tl=3)
     elif c["env"] == "tab-noterm":
         env = learnx.tiny_env(learnx.ALGO_ACT[name], tl=2, term_state=None)
@@ -218,7 +224,16 @@ def clause_crossproc(cases, ctx: Ctx):
         base = run_once(c, c["observers"])[0]
         q = mp.get_context("spawn").Queue()
         p = mp.get_context("spawn").Process(target=_child, args=(c, c["observers"], q))
-        p.start()
+        # the fresh interpreter also gets a different str-hash salt (a user's second run does): nothing may depend on set / dict-of-str order
+        old_salt = os.environ.get("PYTHONHASHSEED")
+        os.environ["PYTHONHASHSEED"] = str(4242 + ci)
+        try:
+            p.start()
+        finally:
+            if old_salt is None:
+                os.environ.pop("PYTHONHASHSEED", None)
+            else:
+                os.environ["PYTHONHASHSEED"] = old_salt
         other = q.get(timeout=600)
         p.join(60)
         ctx.guard("crossproc-runs")
@@ -299,6 +314,8 @@ def explore(ctx: Ctx):
     # purity property: a run-to-run difference that does not recur when the single case is re-executed in another process state
     # (different call history) is itself evidence of hidden state behind learn()
     ctx.accept_unreproduced |= {"C11/keys-do-not-matter", "C11/not-reproducible", "C11/observer-changes-result", "C11/crossproc"}
+    cross.append(dict(algo="PPO", env="tab-dict", hp=0, num_envs=2, num_steps=2, total=13, key=keys[0], observers=[]))
+    cross.append(dict(algo="DQN", env="tab-dict", hp=0, num_envs=2, num_steps=2, total=13, key=keys[0], observers=["log-rec"]))
     ctx.run_parallel("observers", cases, workers=8, group_key=lambda c: (c["algo"], c["env"], c["hp"]), threads=2)
     ctx.run_parallel("keys", kcases, workers=5, group_key=lambda c: c["algo"], threads=2)
     ctx.run("crossproc", cross)
